@@ -96,6 +96,9 @@ def compare(ctx, file, fn, mixing=False, nargs=1, extra=(), transform=None):
             sv.set('timeout', 4000)
             sv.add(*[to_z3(c) for c in s1.pc + s2.pc])
             st = sv.check()
+            if st == z3.unknown:
+                sv.set('timeout', 60000)       # a wall-clock timeout under load is not an answer
+                st = sv.check()
             if st == z3.unsat:
                 continue
             tag = 'path%d_vs_%s_path%d' % (i, 'flipped' if transform is None else 'other', j)
